@@ -1,6 +1,6 @@
 """C08 — consistent renaming of user identifiers commutes with transpilation (spec/PyScope.tla).
 
-TLC computes, on a scope tree with 25 binders and 27 references, every identifier assignment that merges a pair
+TLC computes, on a scope tree with 27 binders and 29 references, every identifier assignment that merges a pair
 of binders without changing what any reference denotes under Python's LEGB rule (the shadowing patterns),
 proves that resolution depends on slot equality only (BindsBySlotOnly), and renders the program under seven
 namings (adversarial pools: prefixes of one another, double underscores, node-classification words, very
@@ -92,6 +92,10 @@ def run(ctx: Ctx) -> int:
 		raise Machinery(f'PyScope: a model-level fact fails (PoolsInjective / Valid(Injective) / BindsBySlotOnly): {res.out[-800:]}')
 	cases = [json.loads(line) for line in res.lines('CASE ')]
 	tokens = json.loads(res.lines('TOKENS ')[0])
+	order = json.loads(res.lines('ORDER ')[0])
+	for c in cases:
+		# the merged pairs of an assignment (PyScope.MergedPair): binders that share a slot, earlier binder first
+		c['merged'] = [[b1, b2] for i, b1 in enumerate(order) for b2 in order[i + 1:] if c['pattern'][b1] == c['pattern'][b2]]
 	for c in cases:
 		c['text'] = ''.join(t['s'] if t['k'] == 't' else c['names'][t['s']] for t in tokens)
 	for full in (json.loads(line) for line in res.lines('FULL ')):
